@@ -111,10 +111,41 @@ pub enum Callee { Closure(Gc<ObjClosure>), Native(Gc<ObjNative>), AnyValue(Value
 pub uninterp spec fn native_class(c: Gc<ObjClass>) -> bool;
 #[verifier::external_body]
 pub struct ClassStore { _p: u8 }
+// the method table of the root class Object (core.yl / class_store: `derives`, `iter` …)
+pub uninterp spec fn object_methods() -> Map<int, Value>;
+// every class has Object in its ancestry: its table has an entry for every method name of Object
+pub open spec fn derives_object(c: Gc<ObjClass>) -> bool { object_methods().dom().subset_of(c.obj().methods.view.dom()) }
 impl ClassStore {
     #[verifier::external_body]
     fn is_native_class(&self, class: Gc<ObjClass>) -> (r: bool) ensures r == native_class(class) { unimplemented!() }
+    #[verifier::external_body]
+    fn object_class(&self) -> (r: Gc<ObjClass>) ensures r.obj().methods.view == object_methods() { unimplemented!() }
+    #[verifier::external_body]
+    fn base_metaclass(&self) -> (r: Gc<ObjClass>) { unimplemented!() }
 }
+#[verifier::external_body]
+fn new_obj_string_value_map() -> (r: VMap) ensures r.view == Map::<int, Value>::empty() { unimplemented!() }
+// UniqueRoot::new(x): unique ownership of a not yet shared object — modelled by the owned value
+#[verifier::external_body]
+fn unique_root_new(x: ObjClass) -> (r: ObjClass) ensures r == x { unimplemented!() }
+// `let r: Root<ObjClass> = unique.into()`: the object becomes a shared heap cell with exactly that content
+#[verifier::external_body]
+fn into_root(x: ObjClass) -> (r: Root<ObjClass>) ensures r.gc().obj() == x { unimplemented!() }
+#[verifier::external_body]
+fn metaclass_name(vm: &mut Vm, name: Gc<ObjString>) -> (r: Gc<ObjString>) ensures *final(vm) == *old(vm) { unimplemented!() }
+
+impl ObjClass {
+    // A class object: its table is the superclass's table (copy-down at creation) overlaid with its own methods
+    //@fn file=yarel/src/object.rs path=ObjClass::new ret=r
+    //@  subst "parent.methods.clone()" => "vmap_clone(&parent.methods)"
+    //@  subst "for (&k, &v) in &methods { merged_methods.insert(k, v); }" => "merged_methods.insert_all_from(&methods);"
+    //@  sig "methods: ObjStringValueMap" => "methods: VMap"
+    //@  ensures r.name == name, r.metaclass == metaclass, r.superclass == superclass
+    //@  ensures @a_class_starts_with_its_superclasss_table_overlaid_with_its_own r.methods.view == (match superclass { Some(p) => p.obj().methods.view, None => Map::<int, Value>::empty() }).union_prefer_right(methods.view)
+    //@end
+}
+#[verifier::external_body]
+fn vmap_clone(m: &VMap) -> (r: VMap) ensures r.view == m.view { unimplemented!() }
 pub struct Vm {
     pub class_store: ClassStore,
     pub working_class_def: Option<ClassDef>,
@@ -211,6 +242,24 @@ impl Vm {
     //@  ensures final(self).working_class_def == old(self).working_class_def
     //@end
 
+    // DeclareClass: a class under construction whose table is Object's (every class derives Object), a placeholder on
+    // the stack; DefineClass: the class becomes a shared object with exactly the tables assembled, linked to its metaclass
+    //@fn file=yarel/src/vm.rs path=Vm::declare_class_impl
+    //@  subst "self.new_gc_obj_string(format!(\"{}Class\", *name).as_str())" => "metaclass_name(self, name)"
+    //@  subst "UniqueRoot::new(" => "unique_root_new("
+    //@  subst "object::new_obj_string_value_map()" => "new_obj_string_value_map()"
+    //@  subst "ClassDef::new(class, metaclass)" => "ClassDef { class, metaclass }"
+    //@  ensures @a_declared_class_starts_with_objects_methods final(self).working_class_def is Some && final(self).working_class_def->0.class.methods.view =~= object_methods() && final(self).working_class_def->0.metaclass.methods.view =~= object_methods()
+    //@  ensures final(self).stack == old(self).stack.push(Value::None), final(self).insts == old(self).insts, final(self).mods == old(self).mods
+    //@end
+    //@fn file=yarel/src/vm.rs path=Vm::define_class_impl
+    //@  subst "self.working_class_def.take().expect(\"Expected ClassDef.\")" => "self.working_class_def.take().unwrap()"
+    //@  subst "let defined_metaclass: Root<ObjClass> = class_def.metaclass.into();" => "let defined_metaclass: Root<ObjClass> = into_root(class_def.metaclass);"
+    //@  subst "let defined_class: Root<ObjClass> = class_def.class.into();" => "let defined_class: Root<ObjClass> = into_root(class_def.class);"
+    //@  requires old(self).working_class_def is Some, old(self).stack.len() >= 1
+    //@  ensures @the_defined_class_has_exactly_the_tables_assembled final(self).working_class_def is None && final(self).stack.len() == old(self).stack.len() && final(self).stack.drop_last() == old(self).stack.drop_last() && ({ let c = final(self).stack.last(); c is ObjClass && c->ObjClass_0.obj().methods == old(self).working_class_def->0.class.methods && c->ObjClass_0.obj().superclass == old(self).working_class_def->0.class.superclass && c->ObjClass_0.obj().metaclass.obj().methods == old(self).working_class_def->0.metaclass.methods })
+    //@end
+
     // Method / StaticMethod: the closure on top of the stack becomes the member named by the operand
     //@fn file=yarel/src/vm.rs path=Vm::method_impl ret=r
     //@  requires old(self).stack.len() >= 1, old(self).working_class_def is Some
@@ -289,7 +338,7 @@ impl Vm {
     //@  rewrite R1
     //@  subst "for (name, method) in &superclass.methods { self.working_class_def .as_mut() .unwrap() .class .methods .insert(*name, *method); }" => "self.working_class_def.as_mut().unwrap().class.methods.insert_all_from(&superclass.methods);"
     //@  requires old(self).stack.len() >= 2, old(self).working_class_def is Some
-    //@  requires old(self).working_class_def->0.class.methods.view =~= Map::<int, Value>::empty()   // Inherit directly follows DeclareClass (class_declaration)
+    //@  requires old(self).stack[old(self).stack.len() - 2] is ObjClass ==> old(self).working_class_def->0.class.methods.view.dom().subset_of(old(self).stack[old(self).stack.len() - 2]->ObjClass_0.obj().methods.view.dom())   // Inherit directly follows DeclareClass (unit classc): the table is still Object's, and every class derives Object
     //@  ensures @native_class_cannot_be_derived_from (old(self).stack[old(self).stack.len() - 2] is ObjClass && native_class(old(self).stack[old(self).stack.len() - 2]->ObjClass_0)) ==> final(self).raised == Some(ErrorKind::TypeError) && final(self).working_class_def == old(self).working_class_def
     //@  ensures @inherited_methods_are_those_of_the_declared_superclass (old(self).stack[old(self).stack.len() - 2] is ObjClass && !native_class(old(self).stack[old(self).stack.len() - 2]->ObjClass_0)) ==> ({ let sup = old(self).stack[old(self).stack.len() - 2]->ObjClass_0; let t0 = old(self).working_class_def->0.class.methods.view; let t1 = final(self).working_class_def->0.class.methods.view; r is Ok && final(self).working_class_def is Some && final(self).working_class_def->0.class.superclass == Some(sup) && t1 =~= sup.obj().methods.view && final(self).stack == old(self).stack.drop_last() })
     //@  ensures @superclass_must_be_a_class !(old(self).stack[old(self).stack.len() - 2] is ObjClass) ==> final(self).raised == Some(ErrorKind::RuntimeError) && final(self).working_class_def == old(self).working_class_def
